@@ -331,11 +331,15 @@ def build(recipe: Recipe) -> Any:
         from .hand_recipes import build_hand
 
         return build_hand(recipe)
+    if k == "dag":
+        from .dag_recipes import build_dag
+
+        return build_dag(recipe)
     raise HarnessError(f"unknown recipe kind {k}")
 
 
 def recipe_domain(recipe: Recipe) -> tuple[str, int]:
-    if recipe["kind"] == "rg":
+    if recipe["kind"] in ("rg", "dag"):
         return input_domain(recipe["input"])
     if "domain" in recipe:
         return recipe["domain"][0], int(recipe["domain"][1])
